@@ -35,6 +35,7 @@ import (
 type harness struct {
 	w      *gitx.World
 	tpl    string
+	tplIdx string // template with an index: committed .gitignore files, keep.mov, and gone.mov missing from the work tree
 	seq    int64
 	nCases int64 // part A cases really executed (memo misses)
 	nSteps int64 // part B steps really executed
@@ -60,8 +61,26 @@ func newHarness() (*harness, error) {
 	if r := w.Git(h.tpl, "init", "-q", "--template=", "-b", "main"); !r.OK() {
 		return nil, fmt.Errorf("git init failed: %s", r)
 	}
+	// second template: a repository with committed files, so that `git lfs track` can take its error exits
+	h.tplIdx = filepath.Join(w.Root, "tplidx")
+	if err := copyTree(h.tpl, h.tplIdx); err != nil {
+		return nil, err
+	}
+	for _, f := range idxFiles {
+		gitx.WriteFile(h.tplIdx, f, []byte("*.tmp\n"), 0644)
+	}
+	gitx.WriteFile(h.tplIdx, "gone.mov", []byte("gone\n"), 0644)
+	for _, args := range [][]string{{"add", "-A"}, {"commit", "-q", "-m", "init"}} {
+		if r := w.Git(h.tplIdx, args...); !r.OK() {
+			return nil, fmt.Errorf("git %v failed: %s", args, r)
+		}
+	}
+	os.Remove(filepath.Join(h.tplIdx, "gone.mov")) // in the index, missing from the work tree
 	return h, nil
 }
+
+// files of the second template whose permission bits are part of the state (lockable flips them)
+var idxFiles = []string{".gitignore", "sub/.gitignore", "keep.mov"}
 
 func copyTree(src, dst string) error {
 	return filepath.Walk(src, func(p string, info os.FileInfo, err error) error {
@@ -81,10 +100,12 @@ func copyTree(src, dst string) error {
 	})
 }
 
-func (h *harness) newRepo() string {
+func (h *harness) newRepo() string { return h.newRepoFrom(h.tpl) }
+
+func (h *harness) newRepoFrom(tpl string) string {
 	n := atomic.AddInt64(&h.seq, 1)
 	dir := filepath.Join(h.w.Root, "r", strconv.FormatInt(n, 10))
-	if err := copyTree(h.tpl, dir); err != nil {
+	if err := copyTree(tpl, dir); err != nil {
 		panic(vx.ToolError{Msg: "cannot create repository: " + err.Error()})
 	}
 	return dir
@@ -770,6 +791,8 @@ type bEntry struct {
 	Cwd      string // "" or "sub"
 	Pat      string
 	Filename bool
+	Kinds    []int // operations offered for this entry (nil: all)
+	MayFail  bool  // the pattern matches an index entry: git-lfs may legitimately refuse it or fail to touch a file
 }
 
 func (e bEntry) label() string {
@@ -800,10 +823,18 @@ type bOp struct {
 type bState struct {
 	HasRoot, HasSub bool
 	Root, Sub       string
+	Modes           string // permission bits of idxFiles (world with an index only)
 }
 
-func (s bState) key() string {
+func (s bState) attrKey() string {
 	return fmt.Sprintf("%v|%v|%d|%s|%s", s.HasRoot, s.HasSub, len(s.Root), s.Root, s.Sub)
+}
+
+func (s bState) key() string { return s.Modes + "|" + s.attrKey() }
+
+type bMemo struct {
+	st    bState
+	model map[int]bool
 }
 
 type bInit struct {
@@ -823,9 +854,11 @@ var bProbes = []string{
 	"p[1].psd", "p1.psd", "sub/p[1].psd", "p\\[1\\].psd", "p.psd", "f.psd", "sub/f.psd",
 	"r.txt", "sub/r.txt", "sub/deep/r.txt", "p.png", "sub/p.png", "q r.md", "qr.md", "q", "Makefile", "sub/Makefile", "w.tab", "sub/w.tab", "lead.sp", "c.crlf", "sub/c.crlf", "last.nl",
 	".gitattributes", "sub/.gitattributes",
+	".gitignore", "sub/.gitignore", "other/.gitignore", ".gitmodules", "gone.mov", "keep.mov", "x.mov", "sub/x.mov", "x.mo", "f.u000", "f.u047", "f.u060", "sub/f.u095", "f.u119",
 }
 
 type bCtx struct {
+	world   string // "" = empty repository, "idx" = repository with committed files (failing invocations possible)
 	name    string
 	ci, nc  int // index of this configuration / number of configurations (first choice point)
 	h       *harness
@@ -860,8 +893,39 @@ func seqKey(init int, ops []int) string {
 	return b.String()
 }
 
+func (c *bCtx) initState(in bInit) bState {
+	s := bState{HasRoot: in.HasRoot, Root: in.Root}
+	if c.world == "idx" {
+		s.Modes = readModes(c.h.tplIdx)
+	}
+	return s
+}
+
+func readModes(repo string) string {
+	var m []string
+	for _, f := range idxFiles {
+		if fi, err := os.Stat(filepath.Join(repo, f)); err == nil {
+			m = append(m, fmt.Sprintf("%o", fi.Mode().Perm()))
+		} else {
+			m = append(m, "-")
+		}
+	}
+	return strings.Join(m, " ")
+}
+
 func (c *bCtx) materialize(s bState) string {
-	repo := c.h.newRepo()
+	tpl := c.h.tpl
+	if c.world == "idx" {
+		tpl = c.h.tplIdx
+	}
+	repo := c.h.newRepoFrom(tpl)
+	if c.world == "idx" && s.Modes != "" {
+		for i, m := range strings.Fields(s.Modes) {
+			if v, err := strconv.ParseUint(m, 8, 32); err == nil {
+				os.Chmod(filepath.Join(repo, idxFiles[i]), os.FileMode(v))
+			}
+		}
+	}
 	os.MkdirAll(filepath.Join(repo, "sub", "deep"), 0755)
 	os.MkdirAll(filepath.Join(repo, "other", "sub"), 0755)
 	if s.HasRoot {
@@ -873,10 +937,13 @@ func (c *bCtx) materialize(s bState) string {
 	return repo
 }
 
-func readState(repo string) bState {
+func (c *bCtx) readState(repo string) bState {
 	var s bState
 	s.Root, s.HasRoot = readOpt(filepath.Join(repo, ".gitattributes"))
 	s.Sub, s.HasSub = readOpt(filepath.Join(repo, "sub", ".gitattributes"))
+	if c.world == "idx" {
+		s.Modes = readModes(repo)
+	}
 	return s
 }
 
@@ -952,16 +1019,13 @@ func (c *bCtx) run(x *vx.X) vx.Result {
 	out := vx.Result{Counters: map[string]int64{}}
 	// longest already-computed prefix (only a shortcut: the state is exactly the bytes of the two files)
 	start := 0
-	st := bState{HasRoot: init.HasRoot, Root: init.Root}
+	st := c.initState(init)
+	model := init.Model
 	for j := len(ops) - 1; j >= 1; j-- {
 		if v, ok := c.memo.Load(seqKey(ii, ops[:j])); ok {
-			start, st = j, v.(bState)
+			start, st, model = j, v.(bMemo).st, v.(bMemo).model
 			break
 		}
-	}
-	model := init.Model
-	for j := 0; j < start; j++ {
-		model = applyModel(model, c.ops[ops[j]])
 	}
 	out.States = append(out.States, vx.Hash64(st.key()))
 	var trace []string
@@ -971,7 +1035,7 @@ func (c *bCtx) run(x *vx.X) vx.Result {
 	if len(ops) == start {
 		out.Outcome = "no-op"
 		out.Sample = map[string]interface{}{"scenario": "seq", "initial": init.Name, "ops": trace}
-		c.memo.Store(seqKey(ii, ops), st)
+		c.memo.Store(seqKey(ii, ops), bMemo{st, model})
 		return out
 	}
 	repo := c.materialize(st)
@@ -1010,8 +1074,29 @@ func (c *bCtx) run(x *vx.X) vx.Result {
 			out.Inconcl = inc
 			return out
 		}
-		ns := readState(repo)
+		ns := c.readState(repo)
 		modelAfter := applyModel(model, o)
+		// a FAILED invocation (non-zero exit of an entry whose pattern matches an index entry: refused pattern, file that
+		// cannot be touched): only "attribute assignments of all other patterns are unchanged" is demanded; whether the
+		// requested pattern itself was added is not, so the request model takes that from what Git reports
+		failed := res.Code != 0 && e.MayFail
+		if failed {
+			out.Counters["failed_invocations"]++
+			out.Counters[fmt.Sprintf("failed_invocations_exit_%d", res.Code)]++
+			modelAfter = applyModel(model, bOp{kUntrack, o.E})
+			allLfs, allLock := len(D) > 0, true
+			for u := range D {
+				if after[u]["filter"] != "lfs" {
+					allLfs = false
+				}
+				if after[u]["lockable"] != "set" {
+					allLock = false
+				}
+			}
+			if allLfs {
+				modelAfter[o.E] = allLock
+			}
+		}
 		trace = append(trace, c.opString(o))
 		out.Transitions++
 		out.States = append(out.States, vx.Hash64(ns.key()))
@@ -1040,11 +1125,16 @@ func (c *bCtx) run(x *vx.X) vx.Result {
 		}
 		out.Evals += int64(len(bProbes))
 		if len(changed) > 0 {
-			fail("others-changed")
-			viol("others-changed", kindName[o.Kind]+":"+e.label(), "attributes of paths the argument does not denote changed", changed)
+			if failed {
+				fail("others-changed-on-failure")
+				viol("others-changed-on-failure", kindName[o.Kind]+":"+e.label(), fmt.Sprintf("the invocation failed (exit %d) and attributes of paths the argument does not denote changed", res.Code), changed)
+			} else {
+				fail("others-changed")
+				viol("others-changed", kindName[o.Kind]+":"+e.label(), "attributes of paths the argument does not denote changed", changed)
+			}
 		}
 		// (2) after any track flavour the denoted paths are LFS
-		if o.Kind != kUntrack {
+		if o.Kind != kUntrack && !failed {
 			var miss []string
 			for u := range D {
 				if after[u]["filter"] != "lfs" {
@@ -1061,6 +1151,9 @@ func (c *bCtx) run(x *vx.X) vx.Result {
 		// sets it and (when the world agreed with the requests so far) leaves it set only where another tracked pattern asks for it
 		var lockBad []string
 		for u := range D {
+			if failed {
+				break
+			}
 			got := after[u]["lockable"] == "set"
 			was := before[u]["lockable"] == "set"
 			switch o.Kind {
@@ -1119,7 +1212,7 @@ func (c *bCtx) run(x *vx.X) vx.Result {
 		// (5) re-running track with the same argument changes nothing
 		if j >= 1 && ops[j] == ops[j-1] && o.Kind != kUntrack {
 			out.Evals++
-			if ns.key() != st.key() {
+			if ns.attrKey() != st.attrKey() {
 				fail("rerun")
 				viol("rerun", kindName[o.Kind]+":"+e.label(), "re-running the same track command changed .gitattributes", []string{})
 			}
@@ -1135,12 +1228,12 @@ func (c *bCtx) run(x *vx.X) vx.Result {
 		if len(clauses) > 0 {
 			v = strings.Join(clauses, "+")
 		}
-		lastOutcome = fmt.Sprintf("seq|%s|%s|%s|%s", kindName[o.Kind], e.label(), changedFile, v)
+		lastOutcome = fmt.Sprintf("seq|%s|%s|exit%d|%s|%s", kindName[o.Kind], e.label(), res.Code, changedFile, v)
 		if len(D) > 0 {
 			out.NonTrivial = append(out.NonTrivial, fmt.Sprintf("%016x/%d", vx.Hash64(st.key()), ops[j]))
 		}
 		st, model = ns, modelAfter
-		c.memo.Store(seqKey(ii, ops[:j+1]), ns)
+		c.memo.Store(seqKey(ii, ops[:j+1]), bMemo{ns, modelAfter})
 	}
 	out.Outcome = lastOutcome
 	out.Sample = map[string]interface{}{"scenario": "seq", "initial": init.Name, "ops": trace, "root_gitattributes": st.Root, "sub_gitattributes": st.Sub, "has_sub_file": st.HasSub}
@@ -1174,12 +1267,12 @@ func (c *bCtx) bfs(st *vx.Stats, deadline time.Time, maxStates int) (levels int,
 	edges := map[string]string{} // stateKey + "\x00" + op -> stateKey
 	var frontier []*bNode
 	for i, in := range c.inits {
-		s := bState{HasRoot: in.HasRoot, Root: in.Root}
+		s := c.initState(in)
 		if _, ok := seen[s.key()]; !ok {
 			n := &bNode{st: s, init: i}
 			seen[s.key()] = n
 			frontier = append(frontier, n)
-			c.memo.Store(seqKey(i, nil), s)
+			c.memo.Store(seqKey(i, nil), bMemo{s, in.Model})
 		}
 	}
 	type task struct {
@@ -1227,7 +1320,7 @@ func (c *bCtx) bfs(st *vx.Stats, deadline time.Time, maxStates int) (levels int,
 					t.r = exec(p)
 					st.Absorb(p, &t.r, 0)
 					if v, ok := c.memo.Load(seqKey(t.n.init, seq)); ok && t.r.ToolErr == "" && t.r.Inconcl == "" {
-						t.ns, t.ok = v.(bState), true
+						t.ns, t.ok = v.(bMemo).st, true
 					}
 				}
 			}()
@@ -1285,18 +1378,32 @@ func (c *bCtx) bfs(st *vx.Stats, deadline time.Time, maxStates int) (levels int,
 func lfsLine(pat, extra string) string { return pat + " filter=lfs diff=lfs merge=lfs -text" + extra }
 
 var (
-	eBin     = bEntry{"", "*.bin", false}
-	eMy      = bEntry{"", "my file#1.dat", false}
-	eSubDat  = bEntry{"", "sub/*.dat", false}
-	eInSub   = bEntry{"sub", "*.dat", false}
-	eInSubMy = bEntry{"sub", "my file#1.dat", false}
-	ePsd     = bEntry{"", "p[1].psd", true}
+	eBin     = bEntry{Cwd: "", Pat: "*.bin"}
+	eMy      = bEntry{Cwd: "", Pat: "my file#1.dat"}
+	eSubDat  = bEntry{Cwd: "", Pat: "sub/*.dat"}
+	eInSub   = bEntry{Cwd: "sub", Pat: "*.dat"}
+	eInSubMy = bEntry{Cwd: "sub", Pat: "my file#1.dat"}
+	ePsd     = bEntry{Cwd: "", Pat: "p[1].psd", Filename: true}
+	// entries of the world with an index: invocations that git-lfs refuses or cannot complete
+	eMov       = bEntry{Cwd: "", Pat: "*.mov", MayFail: true}                                     // matches keep.mov and gone.mov (missing: chtimes fails, exit 2)
+	eIgnore    = bEntry{Cwd: "", Pat: ".gitignore", MayFail: true, Kinds: []int{kTrack, kTrackL}} // refused (block-list), exit 1
+	eGitStar   = bEntry{Cwd: "", Pat: ".git*", MayFail: true, Kinds: []int{kTrack}}               // refused, exit 1
+	eSubIgnore = bEntry{Cwd: "sub", Pat: ".gitignore", MayFail: true, Kinds: []int{kTrack}}       // refused inside sub/
+	eInSubTU   = bEntry{Cwd: "sub", Pat: "*.dat", Kinds: []int{kTrack, kTrackL, kUntrack}}        // gives sub/.gitattributes a content
 )
 
 func initPool() map[string]bInit {
 	rich := "# Git LFS and other attributes\n\n[attr]mybin -diff -merge -text\n*.txt text eol=lf\n*.png mybin\n\"q r.md\" text\n\t lead.sp text\nw.tab\ttext\teol=crlf\n# *.bin filter=lfs diff=lfs merge=lfs -text\nMakefile -text whitespace=-indent-with-non-tab\n"
 	crlf := strings.ReplaceAll("# crlf file\n*.txt text\n*.crlf text eol=crlf\n*.png -text\n", "\n", "\r\n")
 	present := "*.txt text\n" + lfsLine("*.bin", " lockable foo=bar") + "\nmy[[:space:]]file\\#1.dat filter=lfs -text\n*.png -text\n" + lfsLine("sub/*.dat", " lockable") + "\n"
+	// larger than any reasonable write buffer: 120 unrelated pattern lines and comments, about 10 KiB
+	big := "# a large hand-maintained attributes file\n"
+	for i := 0; i < 120; i++ {
+		if i%10 == 0 {
+			big += fmt.Sprintf("# group %d\n", i/10)
+		}
+		big += fmt.Sprintf("*.u%03d text eol=lf diff=u%03d whitespace=trailing-space,space-before-tab,indent-with-non-tab\n", i, i)
+	}
 	pres := map[string]bool{"*.bin": true, "my file#1.dat": false, "sub/*.dat": true}
 	l := []bInit{
 		{Name: "absent"},
@@ -1307,6 +1414,7 @@ func initPool() map[string]bInit {
 		{Name: "crlf+patterns-present+no-final-newline", HasRoot: true, Root: strings.TrimSuffix(strings.ReplaceAll(present, "\n", "\r\n"), "\r\n"), Present: pres},
 		{Name: "mixed-line-endings", HasRoot: true, Root: "*.txt text\r\n*.png -text\n*.crlf text eol=crlf\r\n\r\n" + lfsLine("sub/*.dat", "") + "\r\n", Present: map[string]bool{"sub/*.dat": false}},
 		{Name: "empty-file", HasRoot: true, Root: ""},
+		{Name: "big-10k", HasRoot: true, Root: big},
 	}
 	m := map[string]bInit{}
 	for _, in := range l {
@@ -1321,20 +1429,26 @@ func seqConfigs(h *harness, thorough bool) []*bCtx {
 		name    string
 		entries []bEntry
 		inits   []string
+		world   string
 	}
 	var cfgs []cfg
 	if !thorough {
-		cfgs = []cfg{{"q", []bEntry{eMy, eSubDat, eInSub}, []string{"absent", "comments+macro+unrelated+blank-lines", "crlf+patterns-present+no-final-newline"}}}
+		cfgs = []cfg{
+			{"q", []bEntry{eMy, eSubDat, eInSub}, []string{"absent", "comments+macro+unrelated+blank-lines", "crlf+patterns-present+no-final-newline"}, ""},
+			// failing invocations (refused patterns, a file that cannot be touched) over non-empty files, one of them > 4 KiB
+			{"qf", []bEntry{eMov, eIgnore, eInSubTU, eSubIgnore}, []string{"comments+macro+unrelated+blank-lines", "big-10k", "crlf+patterns-present+no-final-newline"}, "idx"},
+		}
 	} else {
 		cfgs = []cfg{
-			{"t1", []bEntry{eBin, eMy, eSubDat, eInSub}, []string{"absent", "comments+macro+unrelated+blank-lines", "crlf", "patterns-present-with-extra-attributes", "no-final-newline", "crlf+patterns-present+no-final-newline", "mixed-line-endings", "empty-file"}},
-			{"t2", []bEntry{ePsd, eInSubMy, eInSub}, []string{"absent", "comments+macro+unrelated+blank-lines", "crlf+patterns-present+no-final-newline", "no-final-newline"}},
+			{"t1", []bEntry{eBin, eMy, eSubDat, eInSub}, []string{"absent", "comments+macro+unrelated+blank-lines", "crlf", "patterns-present-with-extra-attributes", "no-final-newline", "crlf+patterns-present+no-final-newline", "mixed-line-endings", "empty-file"}, ""},
+			{"t2", []bEntry{ePsd, eInSubMy, eInSub}, []string{"absent", "comments+macro+unrelated+blank-lines", "crlf+patterns-present+no-final-newline", "no-final-newline"}, ""},
+			{"tf", []bEntry{eBin, eMov, eIgnore, eGitStar, eInSubTU, eSubIgnore}, []string{"absent", "comments+macro+unrelated+blank-lines", "big-10k", "crlf+patterns-present+no-final-newline", "no-final-newline", "mixed-line-endings"}, "idx"},
 		}
 	}
 	pool := initPool()
 	var out []*bCtx
 	for i, cf := range cfgs {
-		c := &bCtx{name: cf.name, ci: i, nc: len(cfgs), h: h, entries: cf.entries, maxLen: 40}
+		c := &bCtx{name: cf.name, world: cf.world, ci: i, nc: len(cfgs), h: h, entries: cf.entries, maxLen: 40}
 		for _, n := range cf.inits {
 			c.inits = append(c.inits, pool[n])
 		}
@@ -1346,7 +1460,11 @@ func seqConfigs(h *harness, thorough bool) []*bCtx {
 
 func (c *bCtx) setup() {
 	for i, e := range c.entries {
-		for k := kTrack; k <= kUntrack; k++ {
+		kinds := e.Kinds
+		if kinds == nil {
+			kinds = []int{kTrack, kTrackL, kTrackNL, kUntrack}
+		}
+		for _, k := range kinds {
 			if k == kUntrack && e.Filename {
 				continue // untrack has no --filename: which argument would undo it is not documented
 			}
@@ -1370,7 +1488,7 @@ func (c *bCtx) setup() {
 		if !in.HasRoot {
 			continue
 		}
-		repo := c.materialize(bState{HasRoot: true, Root: in.Root})
+		repo := c.materialize(c.initState(*in))
 		m, inc := c.h.checkAttr(repo, []string{"filter", "lockable"}, bProbes)
 		os.RemoveAll(repo)
 		if inc != "" {
@@ -1466,7 +1584,7 @@ func TestVerifC19(t *testing.T) {
 		for _, in := range b.inits {
 			il = append(il, in.Name)
 		}
-		seqB = append(seqB, map[string]interface{}{"config": b.name, "entries": el, "initial_files": il, "operations": len(b.ops)})
+		seqB = append(seqB, map[string]interface{}{"config": b.name, "entries": el, "initial_files": il, "operations": len(b.ops), "world": map[string]string{"": "empty repository", "idx": "committed .gitignore, sub/.gitignore, keep.mov and gone.mov (gone.mov deleted from the work tree)"}[b.world]})
 	}
 	c.Bounds["seq_configurations"] = seqB
 	c.Bounds["seq_probe_paths"] = len(bProbes)
@@ -1474,7 +1592,8 @@ func TestVerifC19(t *testing.T) {
 		"Git's `check-attr filter` over ~1500 probe paths (all names of length<=2, every one-edit neighbour of N, a fixed list of glob witnesses, each under 4-9 directory prefixes) must be lfs exactly on the literal path (--filename) " +
 		"or exactly on what Git's wildmatch says for the same pattern written C-quoted by hand (pattern); re-running leaves the file byte-identical; after `git lfs untrack -- N` no denoted path is lfs. " +
 		"A names case is non-trivial when track exited 0 and the argument denotes at least one probe path; distinct by (mode, placement, name). " +
-		"seq: BFS to closure from each initial .gitattributes over {track, track --lockable, track --not-lockable, untrack} x entries (cwd, pattern); state = bytes of ./.gitattributes and sub/.gitattributes (absent != empty); " +
+		"seq: BFS to closure from each initial .gitattributes over {track, track --lockable, track --not-lockable, untrack} x entries (cwd, pattern); state = bytes of ./.gitattributes and sub/.gitattributes (absent != empty), plus the permission bits of the committed work-tree files in the configurations with an index; " +
+		"those configurations add invocations that git-lfs refuses (block-listed .gitignore / .git*) or cannot complete (pattern matching an index entry whose file is gone): for an invocation that exits non-zero only `attributes of all non-denoted probes unchanged` is demanded; " +
 		"every (state, op) pair is executed once on the real binary and `check-attr -a` over the probe paths is compared before/after; a transition is non-trivial when its pattern denotes a probe path; distinct by (state hash, op). " +
 		"Violations carry the locally minimal failing name (delete a character / replace by 'a' / move to root) so that one defect class has one fingerprint."
 	c.Assumptions = []string{
@@ -1483,6 +1602,7 @@ func TestVerifC19(t *testing.T) {
 		"seq probe set deliberately has no path differing from `my file#1.dat` only in the kind of whitespace: that class is covered (and reported) by the names scenario",
 		"`./`-prefixed arguments are outside the enumerated grammar (git-lfs strips the prefix on purpose; Git itself would match nothing)",
 		"untrack is only demanded to undo a pattern-mode track with the identical argument (untrack has no --filename)",
+		"an invocation counts as FAILED only when git-lfs exits non-zero AND its pattern matches an index entry of the scenario (refusal / touch failure are legitimate there); a non-zero exit anywhere else is judged by the full clauses",
 		"lockable clauses demand only what docs/man/git-lfs-track.adoc states: --lockable makes the denoted paths lockable; --not-lockable removes the flag (a path stays lockable only where another tracked pattern of the sequence still asks for it); plain track leaves lockable as it was",
 		"`--filename N` is read as: the gitattributes pattern that matches N with every character literal (a slash-less name therefore still matches in every directory below the attributes file, as Git defines)",
 	}
